@@ -347,6 +347,8 @@ class Recon:
                 return ("inst", ct.name, ("p", ctx.qual, d.index), ct.layout_key)
             return ("p", ctx.qual, d.index)
         if k in ("assign", "walrus"):
+            if "." in d.name and ctx.ci is not None and _is_empty_container(d.value):
+                return ("attr", ("self", ctx.ci.key), d.name.split(".", 1)[1])
             return self._e(ctx, d.value, d.node, binds, False, depth + 1)
         if k == "unpack":
             return self._unpack(ctx, d, binds, depth)
@@ -585,7 +587,11 @@ class Recon:
                                 if isinstance(e, ast.Attribute) and e.attr == name:
                                     tgt_index = i
                 node = mctx.cfg.node_for(stmt)
-                val = self._e(mctx, v, node, {}, False, depth + 1)
+                if _is_empty_container(v):
+                    # a mutable container filled later: its identity is the attribute, not the empty literal
+                    val = ("attr", ("self", classkey), name)
+                else:
+                    val = self._e(mctx, v, node, {}, False, depth + 1)
                 if tgt_index is not None:
                     val = val[1][tgt_index] if val[0] == "tuple" and tgt_index < len(val[1]) else ("sub", val, S.C(tgt_index))
                 vals.append(val)
@@ -889,6 +895,14 @@ def _inlineable(fdef: ast.FunctionDef) -> bool:
         if isinstance(n, ast.Call) and isinstance(n.func, ast.Attribute) and n.func.attr in _IO_ATTRS:
             return False
     return rets == 1
+
+
+def _is_empty_container(v: ast.AST) -> bool:
+    if isinstance(v, (ast.Dict, ast.List, ast.Set)) and not (getattr(v, "keys", None) or getattr(v, "elts", None)):
+        return True
+    if isinstance(v, ast.Call) and isinstance(v.func, ast.Name) and v.func.id in ("dict", "list", "set", "OrderedDict", "defaultdict") and not v.args and not v.keywords:
+        return True
+    return False
 
 
 def _getattr_delegate(fn: ast.FunctionDef) -> str | None:
